@@ -156,3 +156,15 @@ Definition c16_ok (ops : list op) (tr : trace) : bool := c16_steps ost0 ops tr.
 (* on the concrete syntax of both lines *)
 Definition c16_ok_line (case result : bytes) : bool :=
   c16_ok (parse_history case) (parse_trace result).
+
+(* the control clause alone (c16_ok implies it: C16Control.c16_ok_ctrl) *)
+Fixpoint c16_ctrl_steps (sp : startp) (ops : list op) (tr : trace) : bool :=
+  match ops, tr with
+  | [], [] => true
+  | oper :: ops', st :: tr' =>
+    let sp' := match oper with OStart p _ => p | _ => sp end in
+    ctrl_clause sp' oper st && c16_ctrl_steps sp' ops' tr'
+  | _, _ => false
+  end.
+
+Definition c16_ctrl_ok (ops : list op) (tr : trace) : bool := c16_ctrl_steps default_sp ops tr.
